@@ -165,9 +165,17 @@ def case_one(rec, c):
     L = dom.length
     k = dom.k
     M = target_length(L, rel)
-    kcol = perturbed_k(k, dom.dk, M, pert)
-    vals = omega_values(dom.dk * np.arange(1, M + 1, dtype=float))
+    if pert[0] == 'kdomain':          # data of the wrong length next to a k column that *is* the domain grid
+        kcol = k.copy()
+        vals = omega_values(dom.dk * np.arange(1, M + 1, dtype=float))
+    elif pert[0] == 'datadomain':     # data of the right length next to a k column of the wrong length
+        kcol = perturbed_k(k, dom.dk, M, ['none'])
+        vals = omega_values(dom.dk * np.arange(1, L + 1, dtype=float))
+    else:
+        kcol = perturbed_k(k, dom.dk, M, pert)
+        vals = omega_values(dom.dk * np.arange(1, M + 1, dtype=float))
     vals0 = vals.copy()
+    kcol0 = np.array(kcol, dtype=float, copy=True)
     tag = core.digest(repr(c))
     obj, caller = make_source(src, vals, kcol, tag)
     rec.state()
@@ -224,7 +232,7 @@ def case_one(rec, c):
             # or first evaluated.  Whatever the source: no cost evaluation may succeed.
             produced = []
             for mk in (rank1_system, rank2_system):
-                obj2, _ = make_source(src, vals0, kcol, tag + mk.__name__)
+                obj2, _ = make_source(src, vals0, kcol0, tag + mk.__name__)
                 try:
                     P = mk(dom, obj2).createPRISM()
                     rec.trans()
@@ -273,6 +281,8 @@ def cases_for(dspec, every_point):
                         perts.append(['outside', j])
                 else:
                     perts += [['outside', 0]]
+                    if src == 'array_k':
+                        perts += [['kdomain'], ['datadomain']]
             for p in perts:
                 out.append({'domain': dspec, 'source': src, 'lenrel': rel, 'pert': p})
     return out
@@ -302,6 +312,7 @@ def run(rec, tier, seed):
     chunks = [cases[i::32] for i in range(32)]
     core.pmap(_worker, [c for c in chunks if c], rec)
     rec.note('alphabets', {'sources': SOURCES, 'length_relations': LENREL, 'domains': doms,
-                           'k_perturbations': ['none', 'shift dk/2', 'rescale 1.01', 'every single point moved 0.5x / 2x the allclose tolerance']})
+                           'k_perturbations': ['none', 'shift dk/2', 'rescale 1.01', 'every single point moved 0.5x / 2x the allclose tolerance',
+                                                'array+k: data of the wrong length with the exact domain k column, and data of the right length with a k column of the wrong length']})
     rec.sample({'domain': {'length': 24, 'dr': 0.1}, 'source': 'file2', 'lenrel': 'equal', 'pert': ['outside', 7]})
     rec.sample({'domain': {'length': 50, 'dk': 0.05}, 'source': 'file1', 'lenrel': 'double', 'pert': ['none']})
